@@ -50,10 +50,12 @@ def bias_conf(rng, name, cvs, kinds):
     if kind in ("abf",) and any(kinds[c] in ("angle",) for c in cvs):
         pass
     names = " ".join(cvs)
+    # a third of the restraints have a time-step factor: they are asleep (inactive) at most steps, and may be deleted in that state
+    tsf = rng.choice(["", "", " timeStepFactor 2\n", " timeStepFactor 3\n"])
     if kind == "harmonic":
-        return "harmonic {\n name %s\n colvars %s\n forceConstant 1.5\n centers %s\n}\n" % (name, names, " ".join("1.0" for _ in cvs)), kind
+        return "harmonic {\n name %s\n colvars %s\n forceConstant 1.5\n centers %s\n%s}\n" % (name, names, " ".join("1.0" for _ in cvs), tsf), kind
     if kind == "walls":
-        return "harmonicWalls {\n name %s\n colvars %s\n forceConstant 2.0\n upperWalls %s\n}\n" % (name, names, " ".join("1.5" for _ in cvs)), kind
+        return "harmonicWalls {\n name %s\n colvars %s\n forceConstant 2.0\n upperWalls %s\n%s}\n" % (name, names, " ".join("1.5" for _ in cvs), tsf), kind
     if kind == "histogram":
         return "histogram {\n name %s\n colvars %s\n}\n" % (name, names), kind
     if kind == "abf":
@@ -94,13 +96,39 @@ def gen(rng, tier):
         order = []   # creation order of survivors (names)
         ncv = nb = 0
         ndel = 0
-        T = traj(rng, nops + 4)
+        T = traj(rng, nops + 12)
         ti = 0
         checks = []
         oplog = []
         had = set()      # variables that lost a bias by deletion
+        # a quarter of the cases start with a directed prefix: two biases on one variable, one of them with a time-step
+        # factor, deleted at a step where it is asleep (its dependencies on the variable are released at that moment)
+        forced = []
+        if k % 4 == 1:
+            forced = ["cv", "bias_tsf", "bias_plain", "step"] + ["step"] * rng.randint(0, 2) + ["del_first"]
+            nops += len(forced)
         for j in range(nops):
             r = rng.rand()
+            f = forced.pop(0) if forced else None
+            if f == "cv":
+                r = 0.0
+            elif f in ("bias_tsf", "bias_plain"):
+                name = "b%d" % nb; nb += 1
+                use = [sorted(cvs)[0]]
+                conf = "harmonic {\n name %s\n colvars %s\n forceConstant %s\n centers 1.0\n%s}\n" % (
+                    name, use[0], "1.5" if f == "bias_tsf" else "2.5", " timeStepFactor %d\n" % rng.choice([2, 3]) if f == "bias_tsf" else "")
+                lines.append(cfg(conf)); biases[name] = (conf, use); order.append(("bias", name)); oplog.append(("add", "bias", name, conf))
+                lines.append("d.check"); checks.append(len(lines))
+                continue
+            elif f == "step":
+                r = 0.99
+            elif f == "del_first":
+                name = sorted(biases)[0]
+                lines.append("m.scriptq cv bias %s delete" % name); oplog.append(("skip",))
+                had.update(biases[name][1])
+                del biases[name]; order = [o for o in order if o != ("bias", name)]; ndel += 1
+                lines.append("d.check"); checks.append(len(lines))
+                continue
             if r < 0.3 or not cvs:
                 name = "v%d" % ncv; ncv += 1
                 conf, kind = cv_conf(rng, name)
@@ -200,6 +228,12 @@ def oracle(case, out):
             return viol
     # identity on outputs
     no, nn = m["marks"]["old"], m["marks"]["new"]
+    for s in range(3):
+        for which, mk in (("after the define/delete sequence", no), ("in the fresh instance", nn)):
+            rc = vals(out, mk[s], "rc")
+            if rc is not None and rc[0] != 0:
+                viol.append("step %d %s ends with an error (return code %r)" % (s, which, rc))
+                return viol
     nnames = len(m["cvnames"])
     for s in range(3):
         eo = vals(out, no[s], "energy"); en = vals(out, nn[s], "energy")
